@@ -290,6 +290,7 @@ fn exec_c<C: Suite>(scen: &Scenario) -> Exec {
         let comm = sh.commitment().clone();
         cases.push(("value".into(), SecretShare::<C>::new(*id, share_from_scalar::<C>(&(s + one::<C>())), comm.clone())));
         cases.push(("value_neg".into(), SecretShare::<C>::new(*id, share_from_scalar::<C>(&neg::<C>(s)), comm.clone())));
+        cases.push(("value_zero".into(), SecretShare::<C>::new(*id, share_from_scalar::<C>(&zero::<C>()), comm.clone())));
         let other = ids[(p + 1) % n];
         cases.push(("identifier_other".into(), SecretShare::<C>::new(other, *sh.signing_share(), comm.clone())));
         cases.push(("identifier_fresh".into(), SecretShare::<C>::new(fresh_id, *sh.signing_share(), comm.clone())));
